@@ -253,8 +253,8 @@ func runQueueCase(m *hx.Model, seed int64, slow bool) (qc qcase, diff string) {
 				qc.Ops = append(qc.Ops, fmt.Sprintf("W %d", k))
 				err := c.WriteMessage(websocket.BinaryMessage, tagPayload(nmsg, k))
 				b := ask("b %s", strings.Join(ids, ","))
-				want, head := "closed", false
-				if b.head == "B 0" {
+				want, head := strings.TrimPrefix(b.head, "B "), false // refused as a whole: closed / full
+				if b.head == "B -" {
 					want = "-"
 					for want == "-" {
 						f := ask("f 1")
@@ -284,8 +284,8 @@ func runQueueCase(m *hx.Model, seed int64, slow bool) (qc qcase, diff string) {
 				resc := make(chan error, 1)
 				go func(n, k int) { resc <- c.WriteMessage(websocket.BinaryMessage, tagPayload(n, k)) }(nmsg, k)
 				b := ask("b %s", strings.Join(ids, ","))
-				want := "closed"
-				if b.head == "B 0" {
+				want := strings.TrimPrefix(b.head, "B ")
+				if b.head == "B -" {
 					want = "-"
 					for j := 0; want == "-"; j++ {
 						if !expectWrite(nmsg*100+j, "direct write") {
